@@ -139,55 +139,34 @@ func runC29(c *core.Ctx) {
 	c.Clause("C29.normalize", func() {
 		norm := c.Fn(lruT + ".normalize")
 		// (a) normalize post-dominates every growth of weight, every PushFront and every change of the bounds
+		// The obligation is owed by the operation: a helper that grows the cache without normalizing
+		// passes the obligation to its call sites (see c29_lift.go).
 		n := 0
-		for _, f := range p.MethodsOf(lruT) {
-			if f == norm {
+		for _, f := range p.FuncsInPkg(c29Pkg) {
+			if f == norm || f.Obj == nil {
 				continue
 			}
-			// a helper that always normalizes counts as normalize()
-			calls := f.SitesMust(func(cs *core.CallSite) bool { return cs.Name == lruT+".normalize" }, 2)
-			var grow []assignment
-			for _, a := range assignments(f) {
-				fn := fieldNameOf(f, a.LHS)
-				switch {
-				case fn == weightF && a.Tok == token.ADD_ASSIGN, fn == lruT+".maxWeight", fn == lruT+".maxSize":
-					grow = append(grow, a)
+			calls := c29NormalizeSites(f)
+			api := c29IsAPI(f)
+			for _, s := range c29GrowthSites(f, norm, 3) {
+				ok, wit := f.MustPassAfter(s.Pt, calls)
+				if !ok && !api {
+					continue // owed at the call sites of this helper, where it is checked as "call of …"
 				}
-			}
-			for _, a := range grow {
-				n++
-				ok, wit := f.MustPassAfter(a.Pt, calls)
-				c.Check(ok, short(f.Name)+"|"+short(fieldNameOf(f, a.LHS))+" change followed by normalize", "T3 PostDominates", a.Stmt.Pos(),
+				n += s.Leaves
+				c.Check(ok, short(f.Name)+"|"+s.What+" followed by normalize", "T3 PostDominates", s.Pos,
 					"every path from this growth/bound change to return passes normalize()", "bound can be exceeded at return: path without normalize() "+f.DescribePath(wit))
-			}
-			for _, cs := range f.CallsTo("container/list.List.PushFront") {
-				n++
-				ok, wit := f.MustPassAfter(cs.Pt, calls)
-				c.Check(ok, short(f.Name)+"|PushFront followed by normalize", "T3 PostDominates", cs.Pos(), "insertion is followed by normalize() on every path", "insertion can return without normalize(): "+f.DescribePath(wit))
 			}
 		}
 		c.ExpectAtLeast("growth / bound-change sites", n, 5)
 		// (b) normalize returns only when both bounds hold
-		namer := func(e ast.Expr) string {
-			switch fieldNameOf(norm, e) {
-			case weightF:
-				return "weight"
-			case lruT + ".maxWeight":
-				return "maxWeight"
-			case lruT + ".maxSize":
-				return "maxSize"
-			}
-			if isCallTo(norm, e, lruT+".Len", "container/list.List.Len") != nil {
-				return "len"
-			}
-			return ""
-		}
+		// (the loop condition may be written in normalize or in a predicate helper such as overflown())
+		normScope := &c30Scope{F: norm}
 		for _, want := range []string{"weight - maxWeight <= 0", "len - maxSize <= 0"} {
 			w := core.ParseLinCmp(want)
 			for _, rp := range norm.ReturnPoints() {
 				ok, wit := norm.GuardedBy(rp, func(ft core.Fact) bool {
-					lc, ok := core.NormLinCmp(norm.Info(), ft, namer)
-					return ok && lc.Equal(w)
+					return c30ImpliesN(normScope, ft, w, c29BoundAtom, 2)
 				})
 				c.Check(ok, "normalize exits only with "+want, "T4 GuardedBy", posOf(rp), "normalize returns only on the edge establishing "+want, "normalize can return while the bound is exceeded: "+norm.DescribePath(wit))
 			}
@@ -232,36 +211,31 @@ func runC29(c *core.Ctx) {
 		}
 		// Get: MoveToFront on the found edge
 		get := c.Fn(lruT + ".Get")
-		mv := core.Points(get.CallsMatching(func(x *core.CallSite) bool {
-			return x.Name == "container/list.List.MoveToFront" && fieldNameOf(get, x.Recv()) == listF
-		}))
+		mv := c29MoveToFrontSites(get)
 		for _, rp := range returnsWith(get, 1, func(e ast.Expr) bool { return isIdentNamed(e, "true") }) {
 			ok, wit := get.MustPassBefore(mv, rp)
 			c.Check(ok, "Get refreshes recency", "T2 Dominates", posOf(rp), "a successful Get has moved the element to the front", "Get can return a hit without MoveToFront: "+get.DescribePath(wit))
 		}
 		c.ExpectAtLeast("successful returns of Get", len(returnsWith(get, 1, func(e ast.Expr) bool { return isIdentNamed(e, "true") })), 1)
 		// Add existing: MoveToFront before the value update
-		add := c.Fn(lruT + ".Add")
-		mvA := core.Points(add.CallsMatching(func(x *core.CallSite) bool {
-			return x.Name == "container/list.List.MoveToFront" && fieldNameOf(add, x.Recv()) == listF
-		}))
+		// (the update of an existing entry may be written in Add or in a helper Add delegates to: the
+		// facts are decided for the operation, see c29_lift.go)
+		c.Fn(lruT + ".Add")
 		nUpd := 0
-		for _, a := range assignments(add) {
-			if fieldNameOf(add, a.LHS) == "utils/simplewlru.entry.value" {
-				nUpd++
-				ok, wit := add.MustPassBefore(mvA, a.Pt)
-				c.Check(ok, "Add of existing key refreshes recency", "T2 Dominates", a.Stmt.Pos(), "updating an existing entry is preceded by MoveToFront", "existing entry updated without MoveToFront: "+add.DescribePath(wit))
-				// and the weight is exchanged: -= old, += new
-				var sub, inc []core.Point
-				for _, w := range assignsToField(add, weightF) {
-					if w.Tok == token.SUB_ASSIGN {
-						sub = append(sub, w.Pt)
-					} else if w.Tok == token.ADD_ASSIGN {
-						inc = append(inc, w.Pt)
-					}
+		for _, g := range p.FuncsInPkg(c29Pkg) {
+			for _, a := range assignments(g) {
+				if fieldNameOf(g, a.LHS) != "utils/simplewlru.entry.value" {
+					continue
 				}
-				o1, _ := add.MustPassBefore(sub, a.Pt)
-				o2, _ := pairedWith(add, a.Pt, inc)
+				nUpd++
+				ok, wit := c29PrecededBy(g, a.Pt, c29MoveToFrontSites, 2)
+				c.Check(ok, "Add of existing key refreshes recency", "T2 Dominates", a.Stmt.Pos(), "updating an existing entry is preceded by MoveToFront", "existing entry updated without MoveToFront: "+g.DescribePath(wit))
+				// and the weight is exchanged: -= old, += new
+				o1, _ := c29PrecededBy(g, a.Pt, c29WeightSites(token.SUB_ASSIGN), 2)
+				o2, _ := c29PrecededBy(g, a.Pt, c29WeightSites(token.ADD_ASSIGN), 2)
+				if !o2 {
+					o2, _ = c29FollowedBy(g, a.Pt, c29WeightSites(token.ADD_ASSIGN), 2)
+				}
 				c.Check(o1 && o2, "Add of existing key exchanges the weight", "T7 Pairing", a.Stmt.Pos(), "old weight subtracted and new weight added on the update path", "weight is not exchanged when an existing entry is updated")
 			}
 		}
